@@ -280,10 +280,71 @@ def s13_chosen(ctx):
     return res
 
 
-STREAMS = [s13_histories, s13_chosen, s13_generated]
+def same_frame_case(arg):
+    """the caller keeps ONE frame object and validates it twice with new Validation objects (allow_fix a, then b); returns both results and whether the frame is still what it was"""
+    i, a, b = arg
+    import_fractopo()
+    from fractopo.tval.trace_validation import Validation
+
+    f = frame(i)
+    before = (list(f.columns), [None if g is None else g.wkt for g in f.geometry.values])
+    try:
+        r1 = canon(Validation(f, area_for(f), "s1", a, SNAP_THRESHOLD=T).run_validation())
+        r2 = canon(Validation(f, area_for(f), "s2", b, SNAP_THRESHOLD=T).run_validation())
+    except Exception as e:
+        return f"{type(e).__name__}: {str(e)[:160]}"
+    after = (list(f.columns), [None if g is None else g.wkt for g in f.geometry.values])
+    return r1, r2, before == after
+
+
+def fresh_case(arg):
+    i, fix = arg
+    import_fractopo()
+    from fractopo.tval.trace_validation import Validation
+
+    f = frame(i)
+    return canon(Validation(f, area_for(f), "ref", fix, SNAP_THRESHOLD=T).run_validation())
+
+
+def s13_same_frame(ctx):
+    res = StreamResult("S13-same-frame", rule="every frame of the pool as ONE caller-owned object validated twice by new Validation objects, allow_fix (True, False) / (False, True) / (True, True) "
+                       "(exhaustive, each history in a fresh process): both results equal those of a fresh identical frame validated once with that setting, and the caller's frame "
+                       "(columns, geometries) is what it was; non-trivial = the frame holds a multi-part line")
+    n = len(POOL)
+    ctxm = mp.get_context("fork")
+    with ctxm.Pool(16, maxtasksperchild=1) as pool:
+        refs = dict(zip([(i, fx) for i in range(n) for fx in (True, False)], pool.map(fresh_case, [(i, fx) for i in range(n) for fx in (True, False)], chunksize=1)))
+    args = [(i, a, b) for i in range(n) for a, b in ((True, False), (False, True), (True, True))]
+    with ctxm.Pool(16, maxtasksperchild=1) as pool:
+        outs = pool.map(same_frame_case, args, chunksize=1)
+    for (i, a, b), o in zip(args, outs):
+        res.evaluations += 1
+        case = {"stream": "S13-same-frame", "frame": POOL[i][0], "frame_index": i, "allow_fix": [a, b]}
+        if any("MULTILINESTRING" in (g or "") for _, g in refs[(i, False)]):
+            res.nontrivial += 1
+        if isinstance(o, str):
+            res.disagreements.append(Disagreement("S13-same-frame", case, "completes", o, True, "validation raised"))
+            continue
+        r1, r2, untouched = o
+        if r1 != refs[(i, a)]:
+            res.disagreements.append(Disagreement("S13-same-frame", case, refs[(i, a)], r1, True, "first validation of the frame differs from a fresh identical frame"))
+        elif r2 != refs[(i, b)]:
+            res.disagreements.append(Disagreement("S13-same-frame", case, refs[(i, b)], r2, True,
+                                                  f"second validation of the SAME caller's frame (allow_fix={b}) differs from a fresh identical frame validated once: the first run left something in it"))
+        elif not untouched:
+            res.disagreements.append(Disagreement("S13-same-frame", case, "the caller's frame as it was", "changed", True, "the caller's frame (columns / geometries) was modified by validation"))
+    res.samples = [{"frames": [p_[0] for p_ in POOL]}]
+    return res
+
+
+STREAMS = [s13_histories, s13_chosen, s13_same_frame, s13_generated]
 
 
 def replay(ctx, stream, case):
+    if stream == "S13-same-frame":
+        r = s13_same_frame(ctx)
+        hit = [d for d in r.disagreements if d.case.get("frame_index") == case.get("frame_index") and d.case.get("allow_fix") == case.get("allow_fix")]
+        return hit[0] if hit else None
     if stream == "S13-chosen":
         with mp.get_context("fork").Pool(1, maxtasksperchild=1) as pool:
             o = pool.map(chosen_case, [(case["frame_index"], case["validators"])], chunksize=1)[0]
